@@ -511,3 +511,8 @@ Definition check (c : case) : list nat :=
   end.
 
 Definition violations (l : list case) : list (nat * nat) := viols check l.
+
+(* compact notation for long runs of operations in generated cases: a block of
+   operations repeated n times, and the (empty) observations of n*len operations *)
+Definition rep_ops (n : nat) (b : list op) : list op := List.concat (repeat b n).
+Definition rep_none (n len : nat) : list oout := repeat ObsNone (n * len).
